@@ -412,7 +412,13 @@ impl ExpandedField<'_> {
         let is_list = self
             .field_type_qualifiers
             .contains(&GraphqlTypeQualifier::List);
-        let id_deserialize_with = if is_id && is_list {
+        let is_nullable_list = is_list
+            && self.field_type_qualifiers.first() != Some(&GraphqlTypeQualifier::Required);
+        let id_deserialize_with = if is_id && is_nullable_list {
+            Some(
+                quote!(#[serde(default, deserialize_with = "graphql_client::serde_with::deserialize_id_list")]),
+            )
+        } else if is_id && is_list {
             Some(
                 quote!(#[serde(deserialize_with = "graphql_client::serde_with::deserialize_id_list")]),
             )
@@ -420,7 +426,7 @@ impl ExpandedField<'_> {
             Some(quote!(#[serde(deserialize_with = "graphql_client::serde_with::deserialize_id")]))
         } else if is_id {
             Some(
-                quote!(#[serde(deserialize_with = "graphql_client::serde_with::deserialize_option_id")]),
+                quote!(#[serde(default, deserialize_with = "graphql_client::serde_with::deserialize_option_id")]),
             )
         } else {
             None
